@@ -10,7 +10,7 @@ Open Scope Z_scope.
 (* ---------- the coupling invariant in plain terms ---------- *)
 Lemma R_unfold loadable d m : R loadable d m ->
   exists c, cached d = Some c /\
-    clauses c = canon_set (m_cs m) /\
+    cclauses c = canon_set (m_cs m) /\
     total c = Some (m_n m) /\
     snd (live_of d) = m_n m /\
     (forall s, cs_sat s (fst (live_of d)) = cs_sat s (m_cs m)) /\
@@ -119,16 +119,16 @@ Variable loadable : clause_set -> nat -> bool.
 Variable compile : clause_set -> nat -> circuit.
 (* its contract (trusted base; checked by the harness on every compilation of a run) *)
 Hypothesis compile_ok : forall cs n, loadable cs n = true ->
-  check_wf (compile cs n) n = true /\ Models (compile cs n) n = cnf_models cs n.
+  check_wf (compile cs n) n = true /\ Models (compile cs n) n = cs_models cs n.
 
 Definition live_circuit (d : dstate) : circuit := compile (fst (live_of d)) (snd (live_of d)).
 
-Lemma cnf_models_equiv a b n : (forall s, cs_sat s a = cs_sat s b) -> cnf_models a n = cnf_models b n.
-Proof. intros H. unfold cnf_models. apply filter_ext. intros m. apply H. Qed.
+Lemma cnf_models_equiv a b n : (forall s, cs_sat s a = cs_sat s b) -> cs_models a n = cs_models b n.
+Proof. intros H. unfold cs_models. apply filter_ext. intros m. apply H. Qed.
 
 Theorem answers d m : R loadable d m ->
   check_wf (live_circuit d) (m_n m) = true /\
-  Models (live_circuit d) (m_n m) = cnf_models (m_cs m) (m_n m).
+  Models (live_circuit d) (m_n m) = cs_models (m_cs m) (m_n m).
 Proof.
   intros HR. destruct (R_unfold loadable d m HR) as [c [_ [_ [_ [Hn [He [Hl _]]]]]]].
   destruct (compile_ok _ _ Hl) as [H1 H2]. unfold live_circuit. rewrite Hn in *.
@@ -163,7 +163,7 @@ Qed.
 
 Theorem core_answers d m s l : R loadable d m -> no_dead (live_circuit d) = true ->
   (In l (snd (core_dead_with_assumptions (build (live_circuit d) (m_n m)) [] s)) <->
-   forall mo, In mo (cnf_models (m_cs m) (m_n m)) -> In l mo).
+   forall mo, In mo (cs_models (m_cs m) (m_n m)) -> In l mo).
 Proof.
   intros HR Hnd. destruct (answers d m HR) as [H1 H2].
   rewrite (core_dead_nil_correct _ _ s l (check_wf_WFQ _ _ H1) Hnd). rewrite H2. tauto.
@@ -178,7 +178,7 @@ Definition d0 : dstate :=
 Definition m0 : mstate := m_init (stored_set raw0) 3.
 
 Definition stored (d : dstate) : clause_set :=
-  match cached d with Some c => clauses c | None => [] end.
+  match cached d with Some c => cclauses c | None => [] end.
 
 (* add a clause that is already present, undo: the clause is gone from the stored set, while
    the abstract machine (and the live model) still have it; a further update then compiles the
